@@ -139,7 +139,7 @@ def today_of(ctx, model):
     return tuple(model.eval(x, model_completion=True).as_long() for x in ctx.today)
 
 
-def explore_closure(run, budget=5000, time_limit=120.0, interp_cls=Interp, cur_n=0):
+def explore_closure(run, budget=5000, time_limit=120.0, interp_cls=Interp, cur_n=0, base=None):
     """all paths of a closure run(I, ctx) -> value; Raise outcomes are returned as the exception object"""
     out = []
     work = [[]]
@@ -150,7 +150,11 @@ def explore_closure(run, budget=5000, time_limit=120.0, interp_cls=Interp, cur_n
         if len(out) >= budget or time.time() - t0 > time_limit:
             status = 'budget'
             break
-        ctx = Ctx(dec, cur_n)
+        if base is not None:
+            ctx = base.clone()
+            ctx.decisions = list(dec)
+        else:
+            ctx = Ctx(dec, cur_n)
         ctx.long_bound = LONG_BOUND
         I = interp_cls(ctx)
         try:
